@@ -29,7 +29,10 @@ LEAN_MODULES = ['ThermoVerif.Props.C10']
 RULE = ('histories over real CompiledChemicals (1-8 bundled chemicals incl. isomers that share a formula, '
         'custom IDs and synthetic chemicals with colliding alias sets), user aliases and groups, single- and '
         'multi-phase molar-flow indexers; key forms: ID/alias/CAS, tuple and list, group, nested, ellipsis, '
-        'phase, (phase, key), (..., key), malformed keys (<=15%); "churn" cases make >600 distinct keys on one '
+        'phase, (phase, key), (..., key), malformed keys incl. sequences nested too deeply (<=15%); reads and writes also '
+        'through by_mass() views and SplitIndexers, name-keyed arrays (chemicals.array / split), wt=True groups, too-short '
+        'data on nested keys, set_alias with a group / attribute name as ID; cross-package copy_like / mix_from also '
+        'between multi-phase indexers (index_overlap together with phase growth); "churn" cases make >600 distinct keys on one '
         'MaterialIndexer memo and >100 on the chemicals memo so both eviction paths run, with cross-package '
         'copy_like/mix_from in between; "grow" cases make a MaterialIndexer\'s phase set grow in place (mix_from / copy_like '
         'from a source with a phase it lacks) with phase keys looked up before and after and sibling indexers of the old '
@@ -39,16 +42,18 @@ RULE = ('histories over real CompiledChemicals (1-8 bundled chemicals incl. isom
 ASSUMPTIONS = [
     'flow data are compared through to_array() (dense image); the sparse dictionary is the subject of C09',
     'values and group compositions are dyadic with power-of-two composition sums, so all arithmetic is exact in binary64',
-    'keys of depth <= 2 (a sequence of names / sequences of names); deeper nestings are not generated',
-    'not generated: set_alias with a group/attribute name as ID; group names that are already chemical names or '
-    'attribute names; 1-d data shorter than a nested (kind 2) key (the code writes a prefix, then raises); '
+    'a sequence nested at depth >= 3 inside a key is passed to the model as "hashable" / "contains a list" only '
+    '(nothing else about it can influence the outcome: it never resolves, so it is never memoised)',
+    'mass views and wt=True compositions involve MW (inexact in binary64): from the first such operation of a case on, '
+    'answers are compared with relative tolerance 1e-9 (marked ~); everything before and every other case is exact',
+    'not generated: set_alias(group name, another group name) (depends on which names share one list object); '
+    'define_group with the name of a chemical or attribute unless GEN_GROUP_CLOBBER (fixes_proposed/C10-5); '
     'for (..., key) writes only scalars and 1-d data of the matching length; vectors longer than the row; '
     'repeated labels in the phases given to MaterialIndexer.blank',
-    'modelled indexers: ChemicalMolarFlowIndexer and MolarFlowIndexer (group_compositions = molar compositions); '
-    'SplitIndexer, mass/volumetric indexers and wt=True group compositions are not modelled; index_overlap is '
-    'exercised through copy_like / mix_from([self, other]) between single-phase indexers only; transfers that '
-    'involve a multi-phase indexer are generated within one chemicals object, and a single-phase receiver only '
-    'takes a single-phase source',
+    'modelled: ChemicalMolarFlowIndexer, MolarFlowIndexer, their by_mass() views (= stream.imass), SplitIndexer, '
+    'chemicals.array/kwarray/split/kwsplit (array and split; the kw forms zip a dict and call them); NOT modelled: '
+    'volumetric views (need V(T, P) models), iarray/ikwarray/isplit constructors (a blank indexer followed by the '
+    'modelled __setitem__), a single-phase receiver copy_like-ing a multi-phase source, nested vectors as SplitIndexer data',
     'the order of index_overlap\'s CAS tuple (insertion order of the sparse dict) is modelled as ascending '
     'position: by cache_transparent it cannot influence any result',
     'the model is written to the FIXED behaviour of fixes_proposed/C10-1..C10-4 (trim_cache, index_overlap kind, '
@@ -63,6 +68,7 @@ EXHAUSTIVE = {'quick': False, 'thorough': False}
 GEN_PHASE_ELLIPSIS = True        # keys ('l', ...) and (..., ...)                       (C10-3)
 GEN_REDEFINE_GROUPS = True       # define_group on an existing group name after lookups (C10-4)
 GEN_PHASE_LETTER_ALIAS = True    # set_alias(ID, 'l') after 'l' was looked up as a phase (C10-4)
+GEN_GROUP_CLOBBER = True        # define_group with the name of a chemical or an attribute (C10-5); enable once C10-5 is committed
 
 tmo = None
 ind = None
@@ -159,7 +165,13 @@ def show_data(d):
 def canon(v):
     if hasattr(v, 'to_array'): v = v.to_array()
     a = np.asarray(v)
-    if a.dtype == object: a = a.astype(float)
+    if a.dtype == object:
+        if a.ndim == 1 and any(isinstance(x, np.ndarray) for x in a):      # SplitIndexer, nested key
+            return 'n:' + ';'.join(('[' + ','.join(frac(float(y)) for y in x) + ']') if isinstance(x, np.ndarray)
+                                   else frac(float(x)) for x in a)
+        if a.ndim == 2:       # NumPy stacks equally long member vectors into a 2-d object array
+            return 'n:' + ';'.join('[' + ','.join(frac(float(y)) for y in x) + ']' for x in a)
+        a = a.astype(float)
     if a.ndim == 0: return 's:' + frac(float(a))
     if a.ndim == 1: return 'v:' + ','.join(frac(float(x)) for x in a)
     return 'm:' + ';'.join(','.join(frac(float(x)) for x in r) for r in a)
@@ -172,6 +184,48 @@ def dense(ix):
 
 def show_dense(rows):
     return 'm:' + ';'.join(','.join(frac(x) for x in r) for r in rows)
+
+
+def _close_tok(a, b, rtol=1e-9, atol=1e-12):
+    if a == b: return True
+    if ':' not in a or ':' not in b or a[:2] != b[:2]: return False
+    ra, rb = a[2:].split(';'), b[2:].split(';')
+    if len(ra) != len(rb): return False
+    for x, y in zip(ra, rb):
+        xs, ys = (x.split(',') if x else []), (y.split(',') if y else [])
+        if len(xs) != len(ys): return False
+        for u, v in zip(xs, ys):
+            try: fu, fv = float(Fraction(u)), float(Fraction(v))
+            except Exception: return False
+            if abs(fu - fv) > atol + rtol * max(abs(fu), abs(fv)): return False
+    return True
+
+
+def close_line(a, b):
+    """answers equal up to rounding (used only where the implementation's arithmetic is inexact)"""
+    ta, tb = a.split(' '), b.split(' ')
+    return len(ta) == len(tb) and all(_close_tok(x, y) for x, y in zip(ta, tb))
+
+
+def compare(impl_line, model_line):
+    if impl_line.startswith('~'): return close_line(impl_line[1:], model_line)
+    return impl_line == model_line
+
+
+def has_list(key):
+    if isinstance(key, list): return True
+    if isinstance(key, tuple): return any(has_list(k) for k in key)
+    return False
+
+
+def model_key(key, depth=0):
+    """the key as the model sees it: a sequence at depth >= 3 is summarised by its hashability"""
+    if key is Ellipsis: return '*'
+    if isinstance(key, (tuple, list)):
+        if depth >= 2: return '@u' if has_list(key) else '@h'
+        inner = ','.join(model_key(k, depth + 1) for k in key)
+        return ('(' + inner + ')') if isinstance(key, tuple) else ('[' + inner + ']')
+    return enc(key)
 
 
 ERR = {'UndefinedChemicalAlias', 'UndefinedPhase', 'TypeError', 'IndexError', 'ValueError', 'KeyError', 'RuntimeError'}
@@ -215,7 +269,7 @@ class ChemSet:
 
     def build(self):
         chems = [self.make_chemical(t) for t in self.recipe]
-        specs = [(c.ID, c.CAS, all_names(c)) for c in chems]
+        specs = [(c.ID, c.CAS, all_names(c), float(c.MW)) for c in chems]
         cc = tmo.Chemicals(chems)
         cc.compile(skip_checks=True)
         return cc, specs
@@ -226,7 +280,10 @@ class ChemSet:
             cc, _ = self.build()
             for d in self.defs:
                 if d[0] == 'alias': cc.set_alias(d[1], d[2])
-                else: cc.define_group(d[1], d[2], d[3])
+                elif d[0] == 'alias-failed':
+                    try: cc.set_alias(d[1], d[2])
+                    except Exception: pass
+                else: cc.define_group(d[1], d[2], d[3], d[4])
             self._fresh = cc
         return self._fresh
 
@@ -236,11 +293,17 @@ class ChemSet:
             if d[0] == 'group' and d[1] == name: return list(d[2])
         return None
 
-    def group_comp(self, name):
+    def group_comp(self, name, basis='mol'):
+        """normalised composition of a group from the user's definition, as exact fractions, on a molar or weight
+        basis (wt=False: mol = comp, wt = comp*MW; wt=True: wt = comp, mol = comp/MW)"""
         for d in reversed(self.defs):
             if d[0] == 'group' and d[1] == name:
-                ids, comp = d[2], d[3]
-                comp = [1.] * len(ids) if comp is None else list(comp)
+                ids, comp, wt = d[2], d[3], d[4]
+                comp = [Fraction(1)] * len(ids) if comp is None else [Fraction(x) for x in comp]
+                if (basis == 'wt') != bool(wt):
+                    fresh = self.fresh()
+                    mws = [Fraction(float(fresh.MW[fresh.index(i)])) for i in ids]
+                    comp = [c * m for c, m in zip(comp, mws)] if basis == 'wt' else [c / m for c, m in zip(comp, mws)]
                 tot = sum(comp)
                 return [x / tot for x in comp]
         return None
@@ -254,6 +317,7 @@ class Universe:
         self.seen = {}         # (ix, key repr, version, defs version) -> canonical answer
         self.tags = set()
         self.maxlen = {}
+        self.inexact = False   # the implementation's arithmetic is no longer exact (mass views, wt compositions)
 
     # ---- oracle helpers --------------------------------------------------
     def pos_of(self, cs, name):
@@ -287,6 +351,16 @@ class Universe:
         return None
 
     @staticmethod
+    def read_plan_split(row, plan):
+        def vec(e): return '[' + ','.join(frac(row[i]) for i in e[2]) + ']'
+        if plan[0] == 'all': return 'v:' + ','.join(frac(x) for x in row)
+        if plan[0] == 'one': return 's:' + frac(row[plan[1]])
+        if plan[0] == 'grp': return 'v:' + ','.join(frac(row[i]) for i in plan[2])
+        if any(e[0] == 'grp' for e in plan[1]):
+            return 'n:' + ';'.join(frac(row[e[1]]) if e[0] == 'one' else vec(e) for e in plan[1])
+        return 'v:' + ','.join(frac(row[e[1]]) for e in plan[1])
+
+    @staticmethod
     def read_plan(row, plan):
         def ent(e):
             return row[e[1]] if e[0] == 'one' else sum(Fraction(row[i]) for i in e[2])
@@ -302,12 +376,19 @@ class Universe:
         if sw in phases: return phases.index(sw)
         return None
 
-    def expect_get(self, n, key):
+    def expect_get(self, n, key, mass=False):
         """('form', expected canonical answer) from data + fresh positions, or None when the key is not valid"""
         ix, s = self.ixs[n]
         cs = self.sets[s]
         rows = dense(ix)
+        if mass:
+            mw = [Fraction(float(x)) for x in cs.fresh().MW]
+            rows = [[Fraction(x) * m for x, m in zip(r, mw)] for r in rows]
         multi = isinstance(ix, ind.MaterialIndexer)
+        if isinstance(ix, ind.SplitIndexer):
+            f = self.chem_form(cs, key)
+            if f is None: return None
+            return 'split+' + f[0], self.read_plan_split(rows[0], f[1])
         if not multi:
             f = self.chem_form(cs, key)
             if f is None: return None
@@ -367,7 +448,7 @@ class Universe:
             except Exception as e:
                 # the model still needs the real name sets: take them from chemicals built one by one
                 chems = [cs.make_chemical(x) for x in t[1:]]
-                cs.specs = [(c.ID, c.CAS, all_names(c)) for c in chems]
+                cs.specs = [(c.ID, c.CAS, all_names(c), float(c.MW)) for c in chems]
                 self.tags.add('chems:err')
                 return self.chems_line(cs), 'err=' + err_name(e)     # no object: later ops do not count it
             self.sets.append(cs)
@@ -383,7 +464,7 @@ class Universe:
                 except Exception:
                     ans.append(f'{enc(n)}=-')
             # property: one position per accepted name, the same for all accepted names of a chemical
-            for k, (ID, cas, nm) in enumerate(cs.specs):
+            for k, (ID, cas, nm, _mw) in enumerate(cs.specs):
                 if table.get(ID) != k or table.get(cas) != k:
                     fail('compile:id-position', f'ID/CAS of chemical {k} resolve to {table.get(ID)}/{table.get(cas)}')
                 for n in nm:
@@ -404,7 +485,10 @@ class Universe:
             try:
                 cs.real.set_alias(ID, a)
             except Exception as e:
-                self.tags.add('alias:err')
+                self.tags.add('alias:err:' + err_name(e))
+                # a failed call may have entered the name already (ID = a group name): the fresh object replays it
+                cs.defs.append(('alias-failed', ID, a)); cs._fresh = None
+                self.names_stay(cs, fail, 'alias')
                 return line, 'err=' + err_name(e)
             cs.defs.append(('alias', ID, a)); cs._fresh = None
             self.tags.add('alias:ok')
@@ -419,14 +503,16 @@ class Universe:
             name = dec(t[2])
             ids = [dec(x) for x in t[3].split(',')] if t[3] != '-' else []
             comp = None if t[4] == '-' else [float(Fraction(x)) for x in t[4].split(',')]
+            wt = len(t) > 5 and t[5] == 'wt'
             redefinition = any(d[0] == 'group' and d[1] == name for d in cs.defs)
             try:
-                cs.real.define_group(name, ids, comp)
+                cs.real.define_group(name, ids, comp, wt)
             except Exception as e:
                 self.tags.add('group:err')
                 return line, 'err=' + err_name(e)
-            cs.defs.append(('group', name, ids, comp)); cs._fresh = None
-            self.tags.add('group:redefined' if redefinition else 'group:ok')
+            cs.defs.append(('group', name, ids, comp, wt)); cs._fresh = None
+            if wt: self.inexact = True
+            self.tags.add(('group:redefined' if redefinition else 'group:ok') + (':wt' if wt else ''))
             self.names_stay(cs, fail, 'group')
             p = cs.real.get_index(name)
             mem = [cs.real.index(x) for x in ids]
@@ -440,6 +526,11 @@ class Universe:
             self.ixs.append((ind.ChemicalMolarFlowIndexer.blank(ph, self.sets[s].real), s)); self.version.append(0)
             return line, 'ok'
 
+        if op == 'six':
+            s = int(t[1])
+            self.ixs.append((ind.SplitIndexer.blank(self.sets[s].real), s)); self.version.append(0)
+            return line, 'ok'
+
         if op == 'mix':
             s = int(t[1])
             phases = '' if t[2] == '-' else t[2]
@@ -451,69 +542,110 @@ class Universe:
             self.tags.add(f'phases:{len(m.phases)}')
             return line, 'ok ' + ''.join(m.phases)
 
-        if op == 'get':
+        if op in ('array', 'split'):
+            cs = self.sets[int(t[1])]
+            key = parse_key(t[2]); data = parse_data(t[3])
+            mline = f'{op} {t[1]} {model_key(key)} {t[3]}'
+            exp = self.expect_array(cs, key, data, op == 'split')
+            try:
+                v = cs.real.array(key, data) if op == 'array' else cs.real.split(key, data)
+            except Exception as e:
+                self.tags.add(op + ':err:' + err_name(e))
+                if exp is not None:
+                    fail(f'{op}:raises-{err_name(e)}@{err_site(e)}', f'valid names {t[2]} with well-shaped data raised '
+                                                                     f'{type(e).__name__}: {str(e)[:80]}')
+                return mline, 'err=' + err_name(e)
+            ans = canon(v)
+            if exp is not None:
+                self.tags.add(op + ':ok')
+                if ans != exp:
+                    fail(f'{op}:mismatch', f'{op}({t[2]}, {t[3]}) gave {ans}; by the positions of the names it is {exp}')
+            else:
+                self.tags.add(op + ':unjudged')
+            return mline, ans
+
+        if op in ('get', 'getm'):
+            mass = op == 'getm'
             n = int(t[1]); ix, s = self.ixs[n]; cs = self.sets[s]
             key = parse_key(t[2])
-            exp = self.expect_get(n, key)
+            mline = f'{op} {t[1]} {model_key(key)}'
+            exp = self.expect_get(n, key, mass)
+            mark = '~' if (mass or self.inexact) else ''
+            same = close_line if mark else (lambda a, b: a == b)
             try:
-                v = ix[key]
+                v = (ix.by_mass() if mass else ix)[key]
             except Exception as e:
                 self.note_cache(ix)
-                self.tags.add('get:err:' + err_name(e))
+                self.tags.add(op + ':err:' + err_name(e))
                 if exp is not None:
-                    fail(f'get:raises-{err_name(e)}@{err_site(e)}',
+                    fail(f'{op}:raises-{err_name(e)}@{err_site(e)}',
                          f'valid {exp[0]} key {t[2]} raised {type(e).__name__}: {str(e)[:80]}')
-                return line, 'err=' + err_name(e)
+                return mline, 'err=' + err_name(e)
             self.note_cache(ix)
             ans = canon(v)
             if exp is not None:
-                self.tags.add('get:' + exp[0])
-                if ans != exp[1]:
-                    fail(f'get/{exp[0]}:mismatch', f'{t[2]} gave {ans}, the data at the positions of the names say {exp[1]}')
+                self.tags.add(op + ':' + exp[0])
+                if not same(ans, exp[1]):
+                    fail(f'{op}/{exp[0]}:mismatch', f'{t[2]} gave {ans}, the data at the positions of the names say {exp[1]}')
             else:
-                self.tags.add('get:unjudged')
-            hk = (n, repr(key if not isinstance(key, list) else tuple(key)), self.version[n], len(cs.defs))
+                self.tags.add(op + ':unjudged')
+            hk = (n, mass, repr(key if not isinstance(key, list) else tuple(key)), self.version[n], len(cs.defs))
             if hk in self.seen and self.seen[hk] != ans:
-                fail('get:history-dependent', f'{t[2]} gave {self.seen[hk]} earlier and {ans} now on unchanged data')
+                fail(f'{op}:history-dependent', f'{t[2]} gave {self.seen[hk]} earlier and {ans} now on unchanged data')
             self.seen.setdefault(hk, ans)
-            return line, ans
+            return mline, mark + ans
 
-        if op == 'set':
+        if op in ('set', 'setm'):
+            mass = op == 'setm'
             n = int(t[1]); ix, s = self.ixs[n]; cs = self.sets[s]
             key = parse_key(t[2]); data = parse_data(t[3])
+            mline = f'{op} {t[1]} {model_key(key)} {t[3]}'
             before = dense(ix)
-            plan = self.write_plan(n, key, data, before)
+            plan = self.write_plan(n, key, data, before, mass)
+            addressed = self.addressed(n, key, before)
             arg = data
             if isinstance(data, list) and (i % 2): arg = np.array(data, dtype=float)
+            if mass: self.inexact = True
+            mark = '~' if self.inexact else ''
             try:
-                ix[key] = arg
+                (ix.by_mass() if mass else ix)[key] = arg
             except Exception as e:
                 self.note_cache(ix)
-                self.tags.add('set:err:' + err_name(e))
-                if dense(ix) != before: self.version[n] += 1
+                self.tags.add(op + ':err:' + err_name(e))
+                after = dense(ix)
+                if after != before: self.version[n] += 1; self.tags.add(op + ':failed-after-partial-write')
                 if plan is not None:
-                    fail(f'set:raises-{err_name(e)}@{err_site(e)}',
+                    fail(f'{op}:raises-{err_name(e)}@{err_site(e)}',
                          f'valid {plan[0]} key {t[2]} with well-shaped data raised {type(e).__name__}: {str(e)[:80]}')
-                return line, 'err=' + err_name(e)
+                elif addressed is not None:
+                    # a rejected write may have written part of what the key addresses, never anything else
+                    for r, (ra, rb) in enumerate(zip(after, before)):
+                        for j, (xa, xb) in enumerate(zip(ra, rb)):
+                            if (r, j) not in addressed[1] and xa != xb:
+                                fail(f'{op}/{addressed[0]}:failed-write-frame',
+                                     f'rejected write through {t[2]} changed entry [{r},{j}] {xb} -> {xa}, which the key does not address')
+                return mline, 'err=' + err_name(e)
             self.note_cache(ix)
             self.version[n] += 1
             after = dense(ix)
             if plan is not None:
                 form, expected = plan
-                self.tags.add('set:' + form)
+                self.tags.add(op + ':' + form)
+                done = False
                 for r, (ra, rb) in enumerate(zip(after, before)):
                     for j, (xa, xb) in enumerate(zip(ra, rb)):
                         want = expected.get((r, j))
                         if want is None:
                             if xa != xb:
-                                fail(f'set/{form}:frame', f'entry [{r},{j}] not addressed by {t[2]} changed {xb} -> {xa}')
-                                break
-                        elif Fraction(xa) != want:
-                            fail(f'set/{form}:written', f'entry [{r},{j}] is {xa} after writing {t[3]} to {t[2]}; expected {want}')
-                            break
+                                fail(f'{op}/{form}:frame', f'entry [{r},{j}] not addressed by {t[2]} changed {xb} -> {xa}')
+                                done = True; break
+                        elif Fraction(xa) != want and not (mark and abs(xa - float(want)) <= 1e-12 + 1e-9 * abs(xa)):
+                            fail(f'{op}/{form}:written', f'entry [{r},{j}] is {xa} after writing {t[3]} to {t[2]}; expected {float(want)}')
+                            done = True; break
+                    if done: break
             else:
-                self.tags.add('set:unjudged')
-            return line, 'ok ' + show_dense(after)
+                self.tags.add(op + ':unjudged')
+            return mline, mark + 'ok ' + show_dense(after)
 
         if op in ('copylike', 'mixfrom'):
             l, r = int(t[1]), int(t[2])
@@ -555,10 +687,11 @@ class Universe:
                     for j, x in enumerate(row):
                         if x: want[tgt][casL.index(casR[j])] += Fraction(x)
             got = {p: [Fraction(x) for x in row] for p, row in zip(after_ph, after_rows)}
-            if not ok or got != want:
+            if not ok or (got != want and not (self.inexact and set(got) == set(want) and all(
+                    abs(float(a) - float(b)) <= 1e-12 + 1e-9 * abs(float(a)) for p in got for a, b in zip(got[p], want[p])))):
                 fail(f'{op}:mismatch', f'phases {after_ph} data {after_rows}; phase by phase and CAS by CAS it should be '
                                        f'{ {p: [float(x) for x in v] for p, v in want.items()} }')
-            return line, f'ok {"".join(after_ph)} ' + show_dense(after_rows)
+            return line, ('~' if self.inexact else '') + f'ok {"".join(after_ph)} ' + show_dense(after_rows)
 
         raise ValueError('unknown op ' + line)
 
@@ -577,10 +710,77 @@ class Universe:
         return tuple(ix.phases) if isinstance(ix, ind.MaterialIndexer) else (ix.phase,)
 
     def chems_line(self, cs):
-        return 'chems ' + ' '.join(f'{enc(ID)}|{cas}|{",".join(enc(n) for n in names)}' for ID, cas, names in cs.specs)
+        return 'chems ' + ' '.join(f'{enc(ID)}|{cas}|{",".join(enc(n) for n in names)}|{frac(mw)}'
+                                   for ID, cas, names, mw in cs.specs)
 
-    def write_plan(self, n, key, data, before):
-        """(form, {(row, col): expected value}) for a valid key with well-shaped data, else None"""
+    def write_plan(self, n, key, data, before, mass=False):
+        """(form, {(row, col): expected molar value}) for a valid key with well-shaped data, else None"""
+        plan = self._write_plan(n, key, data, before, 'wt' if mass else 'mol')
+        if plan is None or not mass: return plan
+        cs = self.sets[self.ixs[n][1]]
+        mw = [Fraction(float(x)) for x in cs.fresh().MW]
+        return plan[0], {(r, j): v / mw[j] for (r, j), v in plan[1].items()}
+
+    def addressed(self, n, key, before):
+        """(form, {(row, col)}) the entries a valid key addresses, else None"""
+        try:
+            plan = self._write_plan(n, key, 0.0, before, 'mol')
+        except Exception:
+            return None
+        return None if plan is None else (plan[0], set(plan[1]))
+
+    def expect_array(self, cs, key, data, split):
+        """canonical result of chemicals.array / split from the positions of the names in a fresh object"""
+        if not isinstance(key, (tuple, list)) or not all(isinstance(k, str) for k in key): return None
+        pos = [self.pos_of(cs, k) for k in key]
+        if any(p is None for p in pos): return None
+        grouped = any(isinstance(p, list) for p in pos)
+        if grouped and not split: return None
+        size = cs.fresh().size
+        out = [Fraction(0)] * size
+        if isinstance(data, list):
+            if any(isinstance(x, list) for x in data) or len(data) != len(key): return None
+            vals = data
+        else:
+            if grouped: return None
+            vals = [data] * len(key)
+        for p, v in zip(pos, vals):
+            for j in (p if isinstance(p, list) else [p]): out[j] = Fraction(v)
+        return 'v:' + ','.join(frac(x) for x in out)
+
+    def _write_plan_split(self, n, key, data, before):
+        ix, s = self.ixs[n]; cs = self.sets[s]
+        size = len(before[0])
+        f = self.chem_form(cs, key)
+        if f is None: return None
+        form, plan = f
+        form = 'split+' + form
+        scalar = not isinstance(data, list)
+        if plan[0] == 'all':
+            vals = self.row_values(data, size)
+            return None if vals is None else (form, {(0, j): vals[j] for j in range(size)})
+        if plan[0] == 'one':
+            return (form, {(0, plan[1]): Fraction(data)}) if scalar else None
+        ents = [plan] if plan[0] == 'grp' else plan[1]
+        flat = [i for e in ents for i in ([e[1]] if e[0] == 'one' else e[2])]
+        if len(set(flat)) != len(flat): return None
+        exp = {}
+        if plan[0] == 'grp':
+            if scalar: vals = [Fraction(data)] * len(plan[2])
+            elif len(data) != len(plan[2]): return None
+            else: vals = [Fraction(x) for x in data]
+            for i, v in zip(plan[2], vals): exp[(0, i)] = v
+            return form, exp
+        if not scalar and len(data) != len(ents): return None
+        for n_, e in enumerate(ents):
+            x = Fraction(data) if scalar else Fraction(data[n_])
+            for i in ([e[1]] if e[0] == 'one' else e[2]): exp[(0, i)] = x
+        return form, exp
+
+    def _write_plan(self, n, key, data, before, basis):
+        if isinstance(self.ixs[n][0], ind.SplitIndexer):
+            if isinstance(data, list) and any(isinstance(x, list) for x in data): return None
+            return self._write_plan_split(n, key, data, before)
         ix, s = self.ixs[n]; cs = self.sets[s]
         multi = isinstance(ix, ind.MaterialIndexer)
         size = len(before[0])
@@ -627,7 +827,8 @@ class Universe:
         flat = [i for e in ents for i in ([e[1]] if e[0] == 'one' else e[2])]
         if len(set(flat)) != len(flat): return None          # repeated positions: "what was written" is ambiguous
         if plan[0] == 'grp':
-            comp = cs.group_comp(plan[1])
+            comp = cs.group_comp(plan[1], basis)
+            if comp is None: return None          # a second name of a group without a composition of its own
             if scalar:
                 # member j (in the order of the user's definition) receives x * comp_j
                 where = self.members(cs, plan[1])
@@ -648,7 +849,8 @@ class Universe:
             if e[0] == 'one':
                 for r in rows: exp[(r, e[1])] = x
             else:
-                comp = cs.group_comp(e[1])
+                comp = cs.group_comp(e[1], basis)
+                if comp is None: return None
                 for r in rows:
                     for i, c in zip(self.members(cs, e[1]), comp): exp[(r, i)] = x * Fraction(c)
         return prefix + form, exp
@@ -781,6 +983,11 @@ class Gen:
             elif r < 0.9 and groups: a = rng.choice(groups)
             elif r < 0.93: ID = 'Nope'; a = 'zz'
             else: a = rng.choice(['with space', 'c,d', 'p(2)', 'Ünï'])
+            q = rng.random()
+            if q < 0.05 and groups:                                   # a group name as ID
+                ID = rng.choice(groups)
+                if a in groups: a = f'al{rng.randrange(40)}'          # (which group names share one object is not modelled)
+            elif q < 0.07: ID = rng.choice(['size', 'MW'])            # an attribute name as ID
             self.do(f'alias {s} {enc(ID)} {enc(a)}')
         for _ in range(n_group):
             self.group(s)
@@ -806,7 +1013,9 @@ class Gen:
         elif r < 0.93: comp = ','.join(map(str, rng.choice(GROUP_COMPS[len(ids)])))
         else: comp = '1,1,1,1,1'
         if name in groups and not GEN_REDEFINE_GROUPS: return
-        self.do(f'group {s} {enc(name)} {",".join(enc(x) for x in ids) if ids else "-"} {comp}')
+        if GEN_GROUP_CLOBBER and rng.random() < 0.06: name = rng.choice(names + ['size', 'MW'])
+        wt = ' wt' if rng.random() < 0.15 else ''
+        self.do(f'group {s} {enc(name)} {",".join(enc(x) for x in ids) if ids else "-"} {comp}{wt}')
 
     # ---- keys --------------------------------------------------------------
     def name(self, s, bad=0.04):
@@ -826,7 +1035,9 @@ class Gen:
             if r < 0.34: return Ellipsis
         k = rng.choice([0, 1, 2, 2, 3, 3, 4, 5]) if not big else rng.choice([2, 3, 3, 4, 4, 5])
         seq = [self.name(s, bad / 2) for _ in range(k)]
-        if top and rng.random() < 0.02 and seq: seq[rng.randrange(len(seq))] = rng.choice([Ellipsis, ('Water',), ['Water']])
+        if rng.random() < 0.03 and seq:
+            deep = [(('Water',),), [['Water']], ('Water', ['Ethanol']), ((), ())]
+            seq[rng.randrange(len(seq))] = rng.choice(([Ellipsis, ('Water',), ['Water']] + deep) if top else [('Water',), ['Water'], ((),)])
         return tuple(seq) if rng.random() < 0.7 else seq
 
     def phase_label(self, ix):
@@ -865,7 +1076,9 @@ class Gen:
         ids, ph = key, None
         if multi and isinstance(key, (tuple, list)) and len(key) == 2: ph, ids = key
         r = rng.random()
-        if r < 0.02 and ph is not Ellipsis: return 'm:'
+        split_nested = isinstance(ix, ind.SplitIndexer) and isinstance(ids, (tuple, list)) and any(
+            isinstance(self.U.pos_of(self.U.sets[s], x), list) for x in ids if isinstance(x, str))
+        if r < 0.02 and ph is not Ellipsis and not split_nested: return 'm:'
         if ids is Ellipsis or (multi and ph is None and isinstance(key, str)):
             if r < 0.5: return show_data(dy(rng))
             return show_data([dy(rng) for _ in range(size if (r < 0.97 or ph is Ellipsis) else rng.randrange(0, size + 1))])
@@ -880,6 +1093,7 @@ class Gen:
             k = len(ids)
             nested = any(isinstance(self.U.pos_of(self.U.sets[s], x), list) for x in ids)
             if r < 0.4: return show_data(dy(rng))
+            if nested and ph is not Ellipsis and r > 0.9: return show_data([dy(rng) for _ in range(rng.randrange(0, k + 2))])
             if nested or ph is Ellipsis or r < 0.93: return show_data([dy(rng) for _ in range(k)])
             return show_data([dy(rng) for _ in range(rng.randrange(0, k + 3))])
         return show_data(dy(rng))
@@ -894,18 +1108,22 @@ class Gen:
         else:
             self.do(f'set {n} * ' + show_data([dy(rng, 0.25) for _ in range(size)]))
 
-    def transfer(self):
-        """copy_like / mix_from between two indexers of the same chemicals object (the model's domain:
-        a single-phase receiver takes a single-phase source; a multi-phase receiver takes either)"""
+    def transfer(self, cross=0.0):
+        """copy_like / mix_from between two indexers, within one chemicals object or (with probability `cross`) across
+        two; a single-phase receiver cannot copy_like a multi-phase source (outside the model)"""
         rng = self.rng
         ixs = self.U.ixs
-        l = rng.randrange(len(ixs))
+        flows = [j for j, (ix, _) in enumerate(ixs) if not isinstance(ix, ind.SplitIndexer)]
+        if not flows: return
+        l = rng.choice(flows)
         il, sl = ixs[l]
-        cands = [j for j, (ir, sr) in enumerate(ixs) if sr == sl and
-                 (isinstance(il, ind.MaterialIndexer) or not isinstance(ir, ind.MaterialIndexer))]
-        if not cands: return
-        r = rng.choice(cands)
-        self.do(f'{rng.choice(["copylike", "mixfrom", "mixfrom"])} {l} {r}')
+        same = [j for j in flows if ixs[j][1] == sl]
+        other = [j for j in flows if ixs[j][1] != sl]
+        r = rng.choice(other) if (other and rng.random() < cross) else rng.choice(same)
+        ir = ixs[r][0]
+        op = rng.choice(["copylike", "mixfrom", "mixfrom"])
+        if not isinstance(il, ind.MaterialIndexer) and isinstance(ir, ind.MaterialIndexer): op = 'mixfrom'
+        self.do(f'{op} {l} {r}')
 
     def phase_probe(self, n, writes=0.15):
         """(phase, IDs) / phase lookups on a multi-phase indexer, through every label it has"""
@@ -942,11 +1160,26 @@ class Gen:
     def rw(self, n, bad=0.04, pset=0.3):
         rng = self.rng
         key = self.key(n, bad)
+        m = 'm' if (rng.random() < 0.1 and not isinstance(self.U.ixs[n][0], ind.SplitIndexer)) else ''
         if rng.random() < pset:
-            self.do(f'set {n} {show_key(key)} {self.data_for(n, key)}')
-            if rng.random() < 0.7: self.do(f'get {n} {show_key(key)}')
+            self.do(f'set{m} {n} {show_key(key)} {self.data_for(n, key)}')
+            if rng.random() < 0.7: self.do(f'get{m if rng.random() < 0.7 else ""} {n} {show_key(key)}')
         else:
-            self.do(f'get {n} {show_key(key)}')
+            self.do(f'get{m} {n} {show_key(key)}')
+
+    def array_op(self, s):
+        """chemicals.array / split: name-keyed construction of an array through the chemicals memo"""
+        rng = self.rng
+        op = rng.choice(['array', 'array', 'split'])
+        k = rng.choice([1, 2, 2, 3, 4])
+        names, groups = self.accepted(s)
+        seq = [self.name(s, 0.03) if (op == 'split' or rng.random() < 0.1) else rng.choice(names) for _ in range(k)]
+        key = tuple(seq) if rng.random() < 0.6 else seq
+        r = rng.random()
+        if r < 0.25: data = show_data(dy(rng))
+        elif r < 0.9: data = show_data([dy(rng) for _ in seq])
+        else: data = show_data([dy(rng) for _ in range(rng.randrange(0, k + 2))])
+        self.do(f'{op} {s} {show_key(key)} {data}')
 
 
 def stoppable(f):
@@ -974,6 +1207,7 @@ def gen_small(g, rng):
     if rng.random() < 0.3: g.do(f'mix {s} {phs if rng.random() < 0.6 else "".join(rng.sample(VALID_PHASES, 2))}')
     if rng.random() < 0.3: g.do(f'cix {s} {rng.choice(VALID_PHASES)}')
     if rng.random() < 0.03: g.do(f'mix {s} lx')
+    if rng.random() < 0.3: g.do(f'six {s}')
     nix = len(g.U.ixs)
     for i in range(nix):
         if rng.random() < 0.85: g.fill(i)
@@ -985,6 +1219,7 @@ def gen_small(g, rng):
             if rng.random() < 0.7: g.group_scalar(s, nix)
         elif r < 0.12: g.group_scalar(s, nix)
         elif r < 0.17: g.transfer()
+        elif r < 0.21: g.array_op(s)
         else: g.rw(rng.randrange(nix))
 
 
@@ -1035,15 +1270,21 @@ def gen_cross(g, rng):
     for _ in range(rng.choice([2, 2, 3])):
         sub = rng.sample(base, rng.randrange(2, len(base) + 1))
         g.do('chems ' + ' '.join(sub)); sets.append(len(g.U.sets) - 1)
+    multi = rng.random() < 0.6
     for s in sets:
-        g.do(f'cix {s}'); g.fill(len(g.U.ixs) - 1)
+        g.do(f'cix {s}' if not multi else f'cix {s} {rng.choice(VALID_PHASES)}'); g.fill(len(g.U.ixs) - 1)
         if rng.random() < 0.5: g.do(f'cix {s}'); g.fill(len(g.U.ixs) - 1)
+        if multi:
+            g.do(f'mix {s} {"".join(rng.sample(VALID_PHASES, rng.randrange(1, 4)))}'); g.fill(len(g.U.ixs) - 1)
     nix = len(g.U.ixs)
     for _ in range(rng.randrange(10, 40)):
         r = rng.random()
         l, rr = rng.randrange(nix), rng.randrange(nix)
-        if r < 0.3: g.do(f'copylike {l} {rr}')
-        elif r < 0.5: g.do(f'mixfrom {l} {rr}')
+        if multi and r < 0.5:
+            g.transfer(cross=0.8)
+            for n_, (ix_, _) in enumerate(g.U.ixs):
+                if isinstance(ix_, ind.MaterialIndexer) and rng.random() < 0.5: g.phase_probe(n_)
+        elif r < 0.5: g.transfer(cross=0.7)
         elif r < 0.75:
             # the CAS tuple that index_overlap memoises, as a user key
             ix, s = g.U.ixs[l]
@@ -1174,6 +1415,31 @@ def corpus():
               'set 1 (l,G) s:16', 'get 1 (l,*)' if GEN_PHASE_ELLIPSIS else 'get 1 l', 'set 1 (l,(Ethanol,G)) v:1,4', 'get 1 l',
               'set 0 (G,Ethanol) s:4', 'get 0 *'], {'kind': 'corpus-group-order'}),
     ]
+    cases += [
+        # 9. keys nested too deeply, too few data for a nested key (a prefix is written, then the write raises)
+        Case([W, 'group 0 G Methanol,Ethanol 1,3', 'cix 0', 'mix 0 lg', 'set 0 * v:1,2,4', 'get 0 (Water,(Ethanol,(Water)))',
+              'get 0 (Water,[Ethanol])', 'get 1 (l,(Water,[Ethanol]))', 'get 1 [l,[Water,(Ethanol)]]', 'get 1 ((l),Water)',
+              'set 0 (Water,G,Methanol) v:8,16', 'get 0 *', 'set 1 (l,(Water,G,Water)) v:1', 'get 1 l',
+              'set 0 (Water,G) v:', 'get 0 *'], {'kind': 'corpus-deep-short'}),
+        # 10. views by mass, weight compositions, name-keyed arrays, SplitIndexer
+        Case([W, 'group 0 G Methanol,Water 1,3 wt', 'group 0 H Ethanol,Water 1,1', 'cix 0', 'mix 0 lg', 'six 0', 'set 0 * v:1,2,4',
+              'getm 0 *', 'getm 0 (Water,G)', 'setm 0 G s:8', 'get 0 *', 'setm 0 H s:64', 'get 0 *', 'setm 1 (l,(Water,Ethanol)) v:18,46',
+              'get 1 l', 'getm 1 (*,H)', 'array 0 (Water,Methanol) v:1,2', 'array 0 [ethanol,H2O] s:3', 'array 0 (Water,G) v:1,2',
+              'split 0 (G,Ethanol) v:1/2,1', 'split 0 [Water] s:1/4', 'set 2 * s:1/2', 'set 2 G v:1/4,3/4', 'get 2 G',
+              'get 2 (Ethanol,G)', 'set 2 (Ethanol,G) v:1/8,1', 'get 2 *', 'set 2 H s:1/4', 'get 2 (G,H)'], {'kind': 'corpus-views'}),
+        # 11. cross-package transfers with multi-phase indexers: index_overlap and phase growth together
+        Case([W, 'chems Methanol Water Octane', 'mix 0 ls', 'mix 1 gl', 'cix 1 S', 'set 0 l v:1,2,4', 'set 1 g v:8,16,0',
+              'set 1 l v:0,32,0', 'set 2 * v:3,5,0', 'get 0 (l,Water)', 'mixfrom 0 1', 'get 0 (l,Water)', 'get 0 (g,(Water,Methanol))',
+              'get 0 (67-56-1,7732-18-5)', 'mixfrom 0 2', 'get 0 s', 'mix 0 ls', 'copylike 3 1', 'get 3 (g,Methanol)', 'set 1 g v:0,0,1',
+              'mixfrom 0 1', 'get 0 g', 'copylike 3 1', 'get 3 *', 'cix 0', 'mixfrom 4 1', 'get 4 *'], {'kind': 'corpus-cross-multi'}),
+        # 12. names in use: set_alias with a group / attribute for ID
+        Case([W, 'group 0 G Methanol,Ethanol 1,3', 'cix 0', 'set 0 * v:1,2,4', 'alias 0 G gg', 'get 0 gg', 'set 0 gg s:1', 'set 0 (Water,gg) s:5',
+              'get 0 *', 'alias 0 G Water', 'alias 0 size x', 'alias 0 size size', 'alias 0 MW Water', 'get 0 Water'], {'kind': 'corpus-alias-ids'}),
+    ]
+    if GEN_GROUP_CLOBBER:
+        cases.append(Case([W, 'group 0 G Methanol,Ethanol -', 'cix 0', 'set 0 * v:1,2,4', 'get 0 Water', 'group 0 Water Ethanol,Methanol -',
+                           'get 0 Water', 'group 0 size Water -', 'group 0 H2O Ethanol -', 'get 0 H2O', 'group 0 G Water -', 'get 0 G'],
+                          {'kind': 'corpus-clobber'}))
     drop = set()
     if not GEN_PHASE_ELLIPSIS: drop.add('corpus-phase-ellipsis')
     if not GEN_REDEFINE_GROUPS: drop.add('corpus-redefine')
